@@ -202,6 +202,26 @@ def routes(ctx, fx, I):
             v = mv._rv(e["rv"], e["bb"], e["idx"])
             if raw_copy_of_param(v) == pidx:
                 raw.append(e)
+    # the same for arms whose value is produced by a call and merged at a common return (`_ if guard => user_claims.to_owned()`): the
+    # alternatives of the returned value that are unprocessed copies of the parameter, located at the block of the copying call
+    rvw_ = mv.return_value()
+    stack_, seen_ = [rvw_], set()
+    while stack_:
+        a_ = stack_.pop()
+        if id(a_) in seen_ or a_.kind == "cycle":
+            continue
+        seen_.add(id(a_))
+        if a_.kind == "phi" or (a_.kind == "alias" and a_.kids):
+            stack_.extend(a_.kids)
+            continue
+        if raw_copy_of_param(a_) == pidx:
+            x_ = a_
+            g_ = 0
+            while g_ < 8 and x_.kind != "call" and x_.kids:
+                x_ = x_.kids[0]
+                g_ += 1
+            if x_.kind == "call" and x_.d.get("bb") is not None and not any(e["bb"] == x_.d["bb"] for e in raw):
+                raw.append({"bb": x_.d["bb"], "line": x_.d["term"].get("line")})
     for kind in c03.CONTAINER_KINDS:
         rem, nsw = c03.kind_edges(fx, f, pidx, (kind,))
         r2 = cfg.reachable(f, [0], removed_edges=rem)
